@@ -6,6 +6,7 @@ import AuthProofs.CodeEquivInternal
 import AuthProofs.StateInventory
 import AuthProofs.Config
 import AuthModel.Generated.Facts
+import AuthProofs.CodeEquivUrls
 namespace AuthProps.C17
 open AuthModel AuthModel.Config
 
@@ -86,6 +87,44 @@ def uX : UrlOracle := { parse := fun s => if s = B "https://h/cb" then some (B "
 example : (load uX okDoc).isSome = true := by decide
 example : load uX { okDoc with chains := [{ name := B "n", criterion := none, filters := [.none] }] } = none := by decide
 
+/-! ### the URL checks of the loader, about the code as translated from the source (validateURL, hasRootPath,
+    validateOIDCConfigURLs of internal/config.go) -/
+
+/-- THE CODE's `validateOIDCConfigURLs`: for EVERY configuration (nil and half-filled ones included) it returns - it
+    cannot panic, although `hasRootPath` dereferences the result of `url.Parse` unchecked: its call comes after
+    `validateURL` accepted the same string - and it accepts exactly what `urlsAccepted` says: every configured URL
+    parses, go-redis accepts the Redis URI after the `tcp://` rewriting, and the callback URI is not a root path.
+    An accepted configuration comes back with the Redis URI rewritten and nothing else changed. -/
+theorem code_url_validation (env : Go.Env) (c : Pb.OIDCConfig) (hcoh : CodeEquiv.UrlParseCoherent env) :
+    ∃ e c', Code.validateOIDCConfigURLs env c = .ok (e, c') ∧ e.isNil = CodeEquiv.urlsAccepted env c ∧
+      (e.isNil = true → c' = CodeEquiv.rewritten c) :=
+  CodeEquiv.code_validate_urls env c hcoh
+
+/-- accepted means safe to run, as far as URLs go: the callback URI parses and has a non-root path (the callback
+    matcher and the logout comparison read it), the token and authorization endpoints parse, and the store factory will
+    be handed a Redis URI that go-redis accepts -/
+theorem code_accepted_urls_resolved (env : Go.Env) (c : Pb.OIDCConfig) (hcoh : CodeEquiv.UrlParseCoherent env) :
+    ∀ e c', Code.validateOIDCConfigURLs env c = .ok (e, c') → e.isNil = true →
+      (c.GetCallbackUri = [] ∨ ((env.urlParseOracle c.GetCallbackUri).2 = false ∧
+         Config.isRootPath (env.urlParseOracle c.GetCallbackUri).1.Path = false)) ∧
+      (c.GetTokenUri = [] ∨ (env.urlParseOracle c.GetTokenUri).2 = false) ∧
+      (c.GetAuthorizationUri = [] ∨ (env.urlParseOracle c.GetAuthorizationUri).2 = false) ∧
+      (CodeEquiv.redisAfter c = [] ∨ env.redisParseURLOracle (CodeEquiv.redisAfter c) = false) ∧
+      c'.GetRedisSessionStoreConfig.GetServerUri = CodeEquiv.redisAfter c :=
+  CodeEquiv.code_accepted_urls env c hcoh
+
+/-- the hypotheses are satisfiable and the verdicts are the expected ones: a root callback is rejected, `tcp://` is
+    rewritten before go-redis sees the URI -/
+example :
+    let env : Go.Env := { urlParseOracle := fun s => ({ Path := if s == B "https://app/" then B "/" else B "/cb" }, false),
+                          redisParseURLOracle := fun s => !(Str.hasPrefix s (B "redis://")) }
+    CodeEquiv.UrlParseCoherent env ∧
+    (Code.validateOIDCConfigURLs env { CallbackUri := B "https://app/" }).map (·.1.isNil) = .ok false ∧
+    (Code.validateOIDCConfigURLs env { CallbackUri := B "https://app/cb", RedisSessionStoreConfig := { isNil := false, ServerUri := B "tcp://r:6379" } }).map
+        (fun r => (r.1.isNil, r.2.GetRedisSessionStoreConfig.GetServerUri)) = .ok (true, B "redis://r:6379") := by
+  refine ⟨fun s _ => rfl, by decide, by decide⟩
+
+
 /-- NO HIDDEN STATE: regenerated inventory of package internal (loader, TLS pool, file watcher), internal/http and internal/k8s: the only mutable state is the watcher table, the pool map and the secret index. -/
 theorem no_hidden_state : InfraInventory := infra_inventory
 
@@ -113,3 +152,5 @@ end AuthProps.C17
 #print axioms AuthProps.C17.scope_constant_matches_source
 #print axioms AuthProps.C17.no_hidden_state
 #print axioms AuthProps.C17.code_loader_rules
+#print axioms AuthProps.C17.code_url_validation
+#print axioms AuthProps.C17.code_accepted_urls_resolved
